@@ -250,6 +250,16 @@ func (e *Env) Stop() (clientStop, serverStop time.Duration) {
 	return
 }
 
+// StopClient stops the client half only (apis/client or the raw mux).
+func (e *Env) StopClient() {
+	if e.Client != nil {
+		e.Client.Stop()
+	}
+	if e.RawMux != nil {
+		e.RawMux.Close()
+	}
+}
+
 // StopBounded stops client and server but does not wait longer than max for
 // either of them: checks whose subject is not shutdown use it so that a slow
 // Stop (see C15) does not dominate their run time. It reports whether both
